@@ -44,7 +44,7 @@ let handle (toks : string list) : (string * string * string) option =
              "storemix:" ^ branch_name (conv_branch s f))
      | Some _ -> Some ("SKIP", "SKIP", "storemix:n2-outside")
      | None -> Some ("NOCOMPILE", "NOCOMPILE", "nomap"))
-  | [("load" | "ret" | "cbarg") as path; a; k; v] ->
+  | [("load" | "ret" | "cbarg" | "loadcv" | "loadcvp" | "loadidx" | "loadcvr") as path; a; k; v] ->
     let a = abi_of_string a and k = kind_of_string k and v = z_of_string v in
     (match to_app a k v, sbx_equiv a k with
      | Some r, Some s ->
